@@ -352,7 +352,7 @@ static void fp_case(double d, int is_float) {
         if (!(diff <= tol)) {
             long double units = u > 0 ? diff / u : 0;
 #if USE_CUSTOM_DTOSTRE
-            const char * key = (units <= 3.6L && !is_float) ? "C07:double-off-by-units-dtostre-accuracy" : (is_float ? "C07:float-outside-emitted-digits" : "C07:double-outside-emitted-digits");
+            const char * key = (units <= 6.5L && !is_float) ? "C07:double-off-by-units-dtostre-accuracy" : (is_float ? "C07:float-outside-emitted-digits" : "C07:double-outside-emitted-digits");
 #else
             const char * key = is_float ? "C07:float-outside-emitted-digits" : "C07:double-outside-emitted-digits";
 #endif
@@ -418,7 +418,7 @@ static void p7_run(uint64_t idx, vh_rng_t * rng) {
             if (kind == K_AF) { float x, y; memcpy(&x, a + i * 4, 4); memcpy(&y, (char *) R.arr + i * 4, 4); bad = !(fabs((double) x - (double) y) <= FPTOL * (double) unit_of(fabsl(x), 6) * 1.000001 + fabs((double) x) * 1.2e-7); }
             else if (kind == K_AD) { double x, y; memcpy(&x, a + i * 8, 8); memcpy(&y, (char *) R.arr + i * 8, 8); bad = !(fabsl((long double) x - y) <= FPTOL * unit_of(fabsl(x), 15) * 1.000001L + fabsl(x) * 2.3e-16L);
 #if USE_CUSTOM_DTOSTRE
-                if (bad && fabsl((long double) x - y) <= 3.6L * unit_of(fabsl(x), 15)) { vh_violation("C07:double-off-by-units-dtostre-accuracy", "array element %a decoded as %a", x, y); bad = 0; }
+                if (bad && fabsl((long double) x - y) <= 6.5L * unit_of(fabsl(x), 15)) { vh_violation("C07:double-off-by-units-dtostre-accuracy", "array element %a decoded as %a", x, y); bad = 0; }
 #endif
             }
             else {
